@@ -14,6 +14,7 @@ import SV.Lemmas.Verify
 
 namespace SV.Props.C01
 open SV.Verify
+set_option linter.unusedSectionVars false
 
 section
 variable {β δ : Type} [DecidableEq δ] (H : β → δ) (parse : β → Toc δ)
@@ -152,7 +153,8 @@ theorem bad_prefetch_blocks_verify (cfg : Cfg) (tb : β) (ops0 : List (Op β δ)
       · rename_i s3 h3; rw [h3] at hlv; cases hlv
       · rfl
     · intro hd ht
-      simp only [mount, hd, ht]
+      unfold mount
+      simp only [hd, ht, Bool.false_eq_true, ↓reduceIte]
       split
       · rename_i s3 h3; rw [h3] at hlv; cases hlv
       · rfl
